@@ -339,6 +339,8 @@ func c06(r *Report) {
 					}
 				}
 				r.Decide("flow", "(*M/mitm.Config)."+sf.method+" stores its argument in "+sf.field, ok, "the parameter reaches the field the certificate template reads", "the setter does not store its argument in c."+sf.field+": issued certificates carry the default instead of the configured value", fn.Pos())
+				// ... whatever the argument is (an "ignored when empty" clause keeps the previous value)
+				setterStoresRule(r, "mitm", "Config", sf.method, sf.field, "issued certificates carry the previous value instead of the configured one")
 			}
 		}
 
@@ -444,6 +446,24 @@ func c06(r *Report) {
 	r.Guard("C06.R7", "without a host name the handshake is refused: every GetCertificate callback tests the name for emptiness before issuing", func() {
 		tlsConfigFreshRule(r)
 		connectAuthorityKeptRule(r)
+		// the mobile wiring configures MITM from the authority it was just given: the Config handed
+		// to SetMITM is the one NewConfig made in this Start (a Config kept from an earlier Start still
+		// signs with the previous CA after the authority was changed)
+		if st := r.W.Fn("mobile", "Martian.Start"); st != nil && st.Blocks != nil {
+			r.Touch(st)
+			n, fresh := 0, true
+			for _, c := range plainCalls(st, "(*M.Proxy).SetMITM") {
+				n++
+				for _, l := range resolveAll(c.Call.Args[1]) {
+					if !isExtractOfCall(l, "M/mitm.NewConfig") && !isCallValue(l, "M/mitm.NewConfig") {
+						fresh = false
+					}
+				}
+			}
+			if n > 0 {
+				r.Decide("flow", "(*M/mobile.Martian).Start configures MITM with a Config made from the current authority", fresh, "SetMITM(<result of mitm.NewConfig in this call>)", "the MITM configuration survives from an earlier Start: after the authority is changed, forged certificates still chain to the previous CA while the new one is what clients are told to trust", st.Pos())
+			}
+		}
 		// the configuration a tunnel is served with is built from the MITM config in force at
 		// that moment: tls.Server takes the direct result of p.mitm.TLSForHost(...), not a
 		// config remembered from an earlier tunnel (which SetMITM would not replace)
